@@ -591,8 +591,10 @@ pub trait Visitor<'de>: Sized {
     fn visit_enum<A: EnumModel<'de>>(self, data: A) -> Result<Self::Value, DeError> requires data.enum_ok();
     fn visit_borrowed_str(self, v: &'de str) -> Result<Self::Value, DeError>;
     fn visit_string(self, v: String) -> Result<Self::Value, DeError>;
-    fn visit_some<'a, R: XmlRead<'de>, E: EntityResolver>(self, deserializer: &'a mut Deserializer<'de, R, E>) -> Result<Self::Value, DeError>
-        requires old(deserializer).inv();
+    fn visit_some<D: DeModel<'de>>(self, deserializer: D) -> Result<Self::Value, DeError>
+        requires deserializer.de_ok();
+    fn visit_newtype_struct<D: DeModel<'de>>(self, deserializer: D) -> Result<Self::Value, DeError>
+        requires deserializer.de_ok();
 }
 pub trait DeDeserializer<'de>: Sized {
     spec fn de_ok(&self) -> bool;
@@ -683,6 +685,14 @@ impl<'de> SimpleTypeDeserializer<'de> {
     pub fn deserialize_struct<V: Visitor<'de>>(self, name: &'static str, fields: &'static [&'static str], visitor: V) -> Result<V::Value, DeError> { unimplemented!() }
     #[verifier::external_body]
     pub fn deserialize_tuple<V: Visitor<'de>>(self, len: usize, visitor: V) -> Result<V::Value, DeError> { unimplemented!() }
+    #[verifier::external_body]
+    pub fn deserialize_seq<V: Visitor<'de>>(self, visitor: V) -> Result<V::Value, DeError> { unimplemented!() }
+}
+/// stand-in for utils::CowRef (the real one: unit dekey): only that its `deserialize_bool` returns is used here
+pub enum CowRef<'i, 's> { Input(&'i str), Slice(&'s str), Owned(String) }
+impl<'i, 's> CowRef<'i, 's> {
+    #[verifier::external_body]
+    pub fn deserialize_bool<'de, V: Visitor<'de>>(self, visitor: V) -> Result<V::Value, DeError> { unimplemented!() }
 }
 impl<'de> DeModel<'de> for SimpleTypeDeserializer<'de> { open spec fn de_ok(&self) -> bool { true } }
 impl<'de> EnumModel<'de> for SimpleTypeDeserializer<'de> { open spec fn enum_ok(&self) -> bool { true } }
@@ -1248,6 +1258,7 @@ impl<'de, 'd, R: XmlRead<'de>, E: EntityResolver> MapModel<'de> for ElementMapAc
     closed spec fn map_ok(&self) -> bool { self.inv() && self.source is Unknown }
 }
 impl<'de> DeModel<'de> for TextDeserializer<'de> { open spec fn de_ok(&self) -> bool { true } }
+impl<'de> EnumModel<'de> for TextDeserializer<'de> { open spec fn enum_ok(&self) -> bool { true } }
 impl<'de, 'd, R: XmlRead<'de>, E: EntityResolver> DeModel<'de> for ElementDeserializer<'de, 'd, R, E> {
     closed spec fn de_ok(&self) -> bool { self.de.inv() && self.start.name_len <= self.start.buf@.len() }
 }
@@ -1951,6 +1962,289 @@ where
         ensures *r.de == *old(de), *final(r.de) == *final(de)
  {
         EnumAccess { de }
+    }
+//@end
+}
+
+// ---- C07 (bounded time): the forwarding network of the text deserializer (src/de/text.rs) ----
+/// every `deserialize_*` of TextDeserializer either answers from its text or forwards to another one; none of the functions
+/// below carries a `decreases` clause, so Verus accepts them only while the calls between them form no cycle: each returns
+/// after finitely many forwards and ONE call into foreign code (a visitor, a seed -- A-serde)
+impl<'de> TextDeserializer<'de> {
+//@extract de::text::TextDeserializer::read_string | src/de/text.rs :: impl<'de> TextDeserializer<'de> :: fn read_string | serves=C07 features=serialize
+//@rewrite-opt Self::Error ==> DeError
+    fn read_string(self) -> Result<Cow<'de, str>, DeError> {
+        Ok(self.0.text)
+    }
+//@end
+//@extract de::text::TextDeserializer::deserialize_unit | src/de/text.rs :: impl<'de> Deserializer<'de> for TextDeserializer<'de> :: fn deserialize_unit | serves=C07 features=serialize
+//@rewrite-opt Self::Error ==> DeError
+    fn deserialize_unit<V>(self, visitor: V) -> Result<V::Value, DeError>
+    where
+        V: Visitor<'de>,
+    {
+        visitor.visit_unit()
+    }
+//@end
+//@extract de::text::TextDeserializer::deserialize_option | src/de/text.rs :: impl<'de> Deserializer<'de> for TextDeserializer<'de> :: fn deserialize_option | serves=C07 features=serialize
+//@rewrite-opt Self::Error ==> DeError
+    fn deserialize_option<V>(self, visitor: V) -> Result<V::Value, DeError>
+    where
+        V: Visitor<'de>,
+    {
+        if self.0.is_empty() {
+            visitor.visit_none()
+        } else {
+            visitor.visit_some(self)
+        }
+    }
+//@end
+//@extract de::text::TextDeserializer::deserialize_newtype_struct | src/de/text.rs :: impl<'de> Deserializer<'de> for TextDeserializer<'de> :: fn deserialize_newtype_struct | serves=C07 features=serialize
+//@rewrite-opt Self::Error ==> DeError
+    /// Forwards deserialization of the inner type. Always calls [`Visitor::visit_newtype_struct`]
+    /// with this deserializer.
+    fn deserialize_newtype_struct<V>(
+        self,
+        _name: &'static str,
+        visitor: V,
+    ) -> Result<V::Value, DeError>
+    where
+        V: Visitor<'de>,
+    {
+        visitor.visit_newtype_struct(self)
+    }
+//@end
+//@extract de::text::TextDeserializer::deserialize_seq | src/de/text.rs :: impl<'de> Deserializer<'de> for TextDeserializer<'de> :: fn deserialize_seq | serves=C07 features=serialize
+//@rewrite-opt Self::Error ==> DeError
+    /// This method deserializes a sequence inside of element that itself is a
+    /// sequence element:
+    ///
+    /// ```xml
+    /// <>
+    ///   ...
+    ///   inner sequence as xs:list
+    ///   ...
+    /// </>
+    /// ```
+    fn deserialize_seq<V>(self, visitor: V) -> Result<V::Value, DeError>
+    where
+        V: Visitor<'de>,
+    {
+        SimpleTypeDeserializer::from_text_content(self.0).deserialize_seq(visitor)
+    }
+//@end
+//@extract de::text::TextDeserializer::deserialize_struct | src/de/text.rs :: impl<'de> Deserializer<'de> for TextDeserializer<'de> :: fn deserialize_struct | serves=C07 features=serialize
+//@rewrite-opt Self::Error ==> DeError
+    fn deserialize_struct<V>(
+        self,
+        _name: &'static str,
+        _fields: &'static [&'static str],
+        visitor: V,
+    ) -> Result<V::Value, DeError>
+    where
+        V: Visitor<'de>,
+    {
+        // Deserializer methods are only hints, if deserializer could not satisfy
+        // request, it should return the data that it has. It is responsibility
+        // of a Visitor to return an error if it does not understand the data
+        self.deserialize_str(visitor)
+    }
+//@end
+//@extract de::text::TextDeserializer::deserialize_enum | src/de/text.rs :: impl<'de> Deserializer<'de> for TextDeserializer<'de> :: fn deserialize_enum | serves=C07 features=serialize
+//@rewrite-opt Self::Error ==> DeError
+    fn deserialize_enum<V>(
+        self,
+        _name: &'static str,
+        _variants: &'static [&'static str],
+        visitor: V,
+    ) -> Result<V::Value, DeError>
+    where
+        V: Visitor<'de>,
+    {
+        visitor.visit_enum(self)
+    }
+//@end
+//@extract de::text::TextDeserializer::deserialize_any | src/de/text.rs :: impl<'de> Deserializer<'de> for TextDeserializer<'de> :: fn deserialize_any | serves=C07 features=serialize
+//@rewrite-opt Self::Error ==> DeError
+    fn deserialize_any<V>(self, visitor: V) -> Result<V::Value, DeError>
+    where
+        V: Visitor<'de>,
+    {
+        self.deserialize_str(visitor)
+    }
+//@end
+//@extract de::text::TextDeserializer::deserialize_bool | src/de/text.rs :: impl<'de> Deserializer<'de> for TextDeserializer<'de> :: invoke deserialize_primitives :: fn deserialize_bool | serves=C07 features=serialize macro_files=src/de/mod.rs
+//@rewrite-opt Self::Error ==> DeError
+        fn deserialize_bool<V>( self, visitor: V) -> Result<V::Value, DeError>
+        where
+            V: Visitor<'de>,
+        {
+            let text = match self.read_string()? {
+                Cow::Borrowed(s) => CowRef::Input(s),
+                Cow::Owned(s) => CowRef::Owned(s),
+            };
+            text.deserialize_bool(visitor)
+        }
+//@end
+//@extract de::text::TextDeserializer::deserialize_char | src/de/text.rs :: impl<'de> Deserializer<'de> for TextDeserializer<'de> :: invoke deserialize_primitives :: fn deserialize_char | serves=C07 features=serialize macro_files=src/de/mod.rs
+//@rewrite-opt Self::Error ==> DeError
+        fn deserialize_char<V>(self, visitor: V) -> Result<V::Value, DeError>
+        where
+            V: Visitor<'de>,
+        {
+            self.deserialize_str(visitor)
+        }
+//@end
+//@extract de::text::TextDeserializer::deserialize_str | src/de/text.rs :: impl<'de> Deserializer<'de> for TextDeserializer<'de> :: invoke deserialize_primitives :: fn deserialize_str | serves=C07 features=serialize macro_files=src/de/mod.rs
+//@rewrite-opt Self::Error ==> DeError
+        fn deserialize_str<V>( self, visitor: V) -> Result<V::Value, DeError>
+        where
+            V: Visitor<'de>,
+        {
+            let text = self.read_string()?;
+            match text {
+                Cow::Borrowed(string) => visitor.visit_borrowed_str(string),
+                Cow::Owned(string) => visitor.visit_string(string),
+            }
+        }
+//@end
+//@extract de::text::TextDeserializer::deserialize_string | src/de/text.rs :: impl<'de> Deserializer<'de> for TextDeserializer<'de> :: invoke deserialize_primitives :: fn deserialize_string | serves=C07 features=serialize macro_files=src/de/mod.rs
+//@rewrite-opt Self::Error ==> DeError
+        fn deserialize_string<V>(self, visitor: V) -> Result<V::Value, DeError>
+        where
+            V: Visitor<'de>,
+        {
+            self.deserialize_str(visitor)
+        }
+//@end
+//@extract de::text::TextDeserializer::deserialize_bytes | src/de/text.rs :: impl<'de> Deserializer<'de> for TextDeserializer<'de> :: invoke deserialize_primitives :: fn deserialize_bytes | serves=C07 features=serialize macro_files=src/de/mod.rs
+//@rewrite-opt Self::Error ==> DeError
+        fn deserialize_bytes<V>(self, visitor: V) -> Result<V::Value, DeError>
+        where
+            V: Visitor<'de>,
+        {
+            self.deserialize_any(visitor)
+        }
+//@end
+//@extract de::text::TextDeserializer::deserialize_byte_buf | src/de/text.rs :: impl<'de> Deserializer<'de> for TextDeserializer<'de> :: invoke deserialize_primitives :: fn deserialize_byte_buf | serves=C07 features=serialize macro_files=src/de/mod.rs
+//@rewrite-opt Self::Error ==> DeError
+        fn deserialize_byte_buf<V>(self, visitor: V) -> Result<V::Value, DeError>
+        where
+            V: Visitor<'de>,
+        {
+            self.deserialize_bytes(visitor)
+        }
+//@end
+//@extract de::text::TextDeserializer::deserialize_unit_struct | src/de/text.rs :: impl<'de> Deserializer<'de> for TextDeserializer<'de> :: invoke deserialize_primitives :: fn deserialize_unit_struct | serves=C07 features=serialize macro_files=src/de/mod.rs
+//@rewrite-opt Self::Error ==> DeError
+        fn deserialize_unit_struct<V>(
+            self,
+            _name: &'static str,
+            visitor: V,
+        ) -> Result<V::Value, DeError>
+        where
+            V: Visitor<'de>,
+        {
+            self.deserialize_unit(visitor)
+        }
+//@end
+//@extract de::text::TextDeserializer::deserialize_tuple | src/de/text.rs :: impl<'de> Deserializer<'de> for TextDeserializer<'de> :: invoke deserialize_primitives :: fn deserialize_tuple | serves=C07 features=serialize macro_files=src/de/mod.rs
+//@rewrite-opt Self::Error ==> DeError
+        fn deserialize_tuple<V>(self, _len: usize, visitor: V) -> Result<V::Value, DeError>
+        where
+            V: Visitor<'de>,
+        {
+            self.deserialize_seq(visitor)
+        }
+//@end
+//@extract de::text::TextDeserializer::deserialize_tuple_struct | src/de/text.rs :: impl<'de> Deserializer<'de> for TextDeserializer<'de> :: invoke deserialize_primitives :: fn deserialize_tuple_struct | serves=C07 features=serialize macro_files=src/de/mod.rs
+//@rewrite-opt Self::Error ==> DeError
+        fn deserialize_tuple_struct<V>(
+            self,
+            _name: &'static str,
+            len: usize,
+            visitor: V,
+        ) -> Result<V::Value, DeError>
+        where
+            V: Visitor<'de>,
+        {
+            self.deserialize_tuple(len, visitor)
+        }
+//@end
+//@extract de::text::TextDeserializer::deserialize_map | src/de/text.rs :: impl<'de> Deserializer<'de> for TextDeserializer<'de> :: invoke deserialize_primitives :: fn deserialize_map | serves=C07 features=serialize macro_files=src/de/mod.rs
+//@rewrite-opt Self::Error ==> DeError
+        fn deserialize_map<V>(self, visitor: V) -> Result<V::Value, DeError>
+        where
+            V: Visitor<'de>,
+        {
+            self.deserialize_struct("", &[], visitor)
+        }
+//@end
+//@extract de::text::TextDeserializer::deserialize_identifier | src/de/text.rs :: impl<'de> Deserializer<'de> for TextDeserializer<'de> :: invoke deserialize_primitives :: fn deserialize_identifier | serves=C07 features=serialize macro_files=src/de/mod.rs
+//@rewrite-opt Self::Error ==> DeError
+        fn deserialize_identifier<V>(self, visitor: V) -> Result<V::Value, DeError>
+        where
+            V: Visitor<'de>,
+        {
+            self.deserialize_str(visitor)
+        }
+//@end
+//@extract de::text::TextDeserializer::deserialize_ignored_any | src/de/text.rs :: impl<'de> Deserializer<'de> for TextDeserializer<'de> :: invoke deserialize_primitives :: fn deserialize_ignored_any | serves=C07 features=serialize macro_files=src/de/mod.rs
+//@rewrite-opt Self::Error ==> DeError
+        fn deserialize_ignored_any<V>(self, visitor: V) -> Result<V::Value, DeError>
+        where
+            V: Visitor<'de>,
+        {
+            self.deserialize_unit(visitor)
+        }
+//@end
+//@extract de::text::TextDeserializer::variant_seed | src/de/text.rs :: impl<'de> EnumAccess<'de> for TextDeserializer<'de> :: fn variant_seed | serves=C07 features=serialize
+//@rewrite-opt Self::Error ==> DeError
+//@rewrite-opt Self::Variant ==> Self
+//@rewrite-all BorrowedStrDeserializer::<DeError>::new( ==> BorrowedStrDeserializer::new(
+    fn variant_seed<V>(self, seed: V) -> Result<(V::Value, Self), DeError>
+    where
+        V: DeserializeSeed<'de>,
+    {
+        let name = seed.deserialize(BorrowedStrDeserializer::new(TEXT_KEY))?;
+        Ok((name, self))
+    }
+//@end
+//@extract de::text::TextDeserializer::unit_variant | src/de/text.rs :: impl<'de> VariantAccess<'de> for TextDeserializer<'de> :: fn unit_variant | serves=C07 features=serialize
+//@rewrite-opt Self::Error ==> DeError
+    fn unit_variant(self) -> Result<(), DeError> {
+        Ok(())
+    }
+//@end
+//@extract de::text::TextDeserializer::newtype_variant_seed | src/de/text.rs :: impl<'de> VariantAccess<'de> for TextDeserializer<'de> :: fn newtype_variant_seed | serves=C07 features=serialize
+//@rewrite-opt Self::Error ==> DeError
+    fn newtype_variant_seed<T>(self, seed: T) -> Result<T::Value, DeError>
+    where
+        T: DeserializeSeed<'de>,
+    {
+        seed.deserialize(self)
+    }
+//@end
+//@extract de::text::TextDeserializer::tuple_variant | src/de/text.rs :: impl<'de> VariantAccess<'de> for TextDeserializer<'de> :: fn tuple_variant | serves=C07 features=serialize
+//@rewrite-opt Self::Error ==> DeError
+    fn tuple_variant<V>(self, len: usize, visitor: V) -> Result<V::Value, DeError>
+    where
+        V: Visitor<'de>,
+    {
+        self.deserialize_tuple(len, visitor)
+    }
+//@end
+//@extract de::text::TextDeserializer::struct_variant | src/de/text.rs :: impl<'de> VariantAccess<'de> for TextDeserializer<'de> :: fn struct_variant | serves=C07 features=serialize
+//@rewrite-opt Self::Error ==> DeError
+    fn struct_variant<V>(
+        self,
+        fields: &'static [&'static str],
+        visitor: V,
+    ) -> Result<V::Value, DeError>
+    where
+        V: Visitor<'de>,
+    {
+        self.deserialize_struct("", fields, visitor)
     }
 //@end
 }
